@@ -1,10 +1,12 @@
 pub mod echo;
+pub mod mem;
 
 pub type LaneFn = fn(&str) -> String;
 
 pub fn find(name: &str) -> Option<LaneFn> {
     Some(match name {
         "echo" => echo::run,
+        "mem" => mem::run,
         _ => return None,
     })
 }
